@@ -71,6 +71,14 @@ def _up(x):
     return math.nextafter(x, math.inf)
 
 
+def _exact(f, frac):
+    """is the float f exactly the rational frac?"""
+    try:
+        return (not math.isinf(f)) and Fraction(f) == frac
+    except (OverflowError, ValueError):
+        return False
+
+
 def fconst(c):
     c = float(c)
     return (c, False, c, False)
@@ -92,14 +100,14 @@ def f_add(a, b):
     else:
         lo = a[0] + b[0]
         ls = a[1] or b[1]
-        if a[0] != 0 and b[0] != 0:
+        if not _exact(lo, Fraction(a[0]) + Fraction(b[0])):
             lo = _down(lo)
     if a[2] is None or b[2] is None:
         hi, hs = None, False
     else:
         hi = a[2] + b[2]
         hs = a[3] or b[3]
-        if a[2] != 0 and b[2] != 0:
+        if not _exact(hi, Fraction(a[2]) + Fraction(b[2])):
             hi = _up(hi)
     return (lo, ls, hi, hs)
 
@@ -124,8 +132,9 @@ def f_mul(a, b):
         if lo == 0:
             ls = (sa == 'pos' and sb == 'pos')
         else:
-            lo = _down(lo)
             ls = a[1] and b[1]
+            if not _exact(lo, Fraction(a[0]) * Fraction(b[0])):
+                lo = _down(lo)
             if lo < 0:
                 lo, ls = 0.0, True
         if a[2] is None or b[2] is None:
@@ -133,10 +142,10 @@ def f_mul(a, b):
         else:
             hi = a[2] * b[2]
             hs = (a[3] or b[3])
-            if hi != 0:
-                hi = _up(hi)
-            else:
+            if hi == 0:
                 hs = False
+            elif not math.isinf(hi) and not _exact(hi, Fraction(a[2]) * Fraction(b[2])):
+                hi = _up(hi)
             if math.isinf(hi):
                 hi, hs = None, False
         return (lo, ls, hi, hs)
@@ -155,13 +164,17 @@ def f_inv(b):
         if b[0] == 0:
             hi, hs = None, False
         else:
-            hi, hs = _up(1.0 / b[0]), b[1]
+            hi, hs = 1.0 / b[0], b[1]
             if math.isinf(hi):
                 hi, hs = None, False
+            elif not _exact(hi, 1 / Fraction(b[0])):
+                hi = _up(hi)
         if b[2] is None:
             lo, ls = 0.0, True
         else:
-            lo, ls = _down(1.0 / b[2]), b[3]
+            lo, ls = 1.0 / b[2], b[3]
+            if not _exact(lo, 1 / Fraction(b[2])):
+                lo = _down(lo)
             if lo <= 0:
                 lo, ls = 0.0, True
         return (lo, ls, hi, hs)
@@ -851,6 +864,14 @@ def same(a, b, neg=False):
     return ENG.valid((a + b == 0) if neg else (a == b), timeout=ENG.opts.get('cong_timeout', 1500))
 
 
+def _sqrt_out(v, widen):
+    """float square root of an interval endpoint, rounded outwards unless it is exact"""
+    h = v ** 0.5
+    if Fraction(h) * Fraction(h) == Fraction(v):
+        return h
+    return widen(h)
+
+
 def uf_app(name, argsym, mk_axioms, rf=None):
     lst = ENG.apps.setdefault(name, [])
     arg = som(argsym.t)
@@ -883,8 +904,8 @@ def uf_app(name, argsym, mk_axioms, rf=None):
         if name == 'exp':
             rf = (0.0, True, 1.0 if (af[2] is not None and af[2] <= 0) else None, False)
         elif name == 'sqrt':
-            hi = None if af[2] is None else _up(af[2] ** 0.5)
-            lo = 0.0 if (af[0] is None or af[0] <= 0) else _down(af[0] ** 0.5)
+            hi = None if af[2] is None else _sqrt_out(af[2], _up)
+            lo = 0.0 if (af[0] is None or af[0] <= 0) else _sqrt_out(af[0], _down)
             rf = (lo, _sgn(af) == 'pos' if lo == 0.0 else af[1], hi, af[3] if hi is not None else False)
         elif name == 'cdf':
             rf = (0.0, True, 1.0, True)
